@@ -51,7 +51,26 @@ def plan(tier, seed):
 
 # {{{ generators
 
+def _int_to_float(e):
+    if e[0] == "num" and isinstance(e[1], int) and not isinstance(e[1], bool):
+        return ["num", float(e[1])]
+    if e[0] in ("num", "var", "cnum", "bool"):
+        return e
+    if e[0] == "cmp":
+        return ["cmp", e[1], _int_to_float(e[2]), _int_to_float(e[3])]
+    if e[0] == "call":
+        return ["call", e[1], [_int_to_float(x) for x in e[2]], {k: _int_to_float(v) for k, v in e[3].items()}]
+    return [e[0]] + [_int_to_float(x) if isinstance(x, list) else x for x in e[1:]]
+
+
 def g_arith(rng, d):
+    if d >= 2 and rng.random() < 0.03:
+        # twin sub-terms that differ only in the TYPE of a literal (2 vs 2.0): equal as values, different as text
+        t = g_arith(rng, d - 1)
+        u = _int_to_float(t)
+        if repr(u) != repr(t):          # (2 == 2.0: compare the spelling)
+            return [rng.choice(["+", "*", "-"]), t, u] if rng.random() < 0.7 else \
+                ["call", rng.choice(FUNCS), [t, u], {}]
     r = rng.random()
     if d > 0 and rng.random() < 0.03:
         # a truth value in an arithmetic position ('not a + 1', '(a < b)*2', 'not a < b'): the printer has to
